@@ -1649,7 +1649,7 @@ fn generate<C: Crypto>(crypto: &C, tier: &str, seed: u64) -> (Vec<String>, BTree
             let (e_nc, w_nc) = honest(crypto, k1, NODE_C, &hdr_next, &[5, 5]);
             let mut world3 = world2.clone();
             world3.extend([e_nosrc, e_ctl, e_ack, e_k2, e_k11, e_nc]);
-            let mut muts = vec!["-".to_string(), "F".into(), "T".into(), "X".into()];
+            let mut muts = vec!["-".to_string()];
             for (h, pl) in [(&hdr_next, &[5u8, 5][..]), (&hdr_nosrc, &[6, 6, 6][..]), (&hdr_ctl, &[7][..]), (&hdr_ack, &[8, 8][..])] {
                 // cleartext protocol header and payload where the sealed body belongs, with and without a fake tag
                 muts.push(forged_clear(h, pl, 16));
@@ -1659,6 +1659,7 @@ fn generate<C: Crypto>(crypto: &C, tier: &str, seed: u64) -> (Vec<String>, BTree
             for w in [&w_nosrc, &w_ctl, &w_ack, &w_k2, &w_k11, &w_nc] {
                 muts.push(format!("w{}", hex(w)));
             }
+            muts.extend(["F".to_string(), "T".into(), "X".into()]);
             g.push_d(
                 "GS",
                 DCase {
@@ -1685,7 +1686,7 @@ fn generate<C: Crypto>(crypto: &C, tier: &str, seed: u64) -> (Vec<String>, BTree
                 let (e2, w2) = honest(crypto, 51, nonce_node, &h2, &pl);
                 let (e3, w3) = honest(crypto, 52, nonce_node, &h1, &pl);
                 let (e4, w4) = honest(crypto, 51, NODE_C, &h1, &pl);
-                let mut muts = vec!["-".to_string(), "F".into(), "T".into(), "X".into()];
+                let mut muts = vec!["-".to_string()];
                 muts.push(forged_clear(&h1, &pl, 16));
                 muts.push(forged_clear(&h1, &pl, 0));
                 muts.push(forged_clear(&h2, &pl, 16));
@@ -1695,6 +1696,7 @@ fn generate<C: Crypto>(crypto: &C, tier: &str, seed: u64) -> (Vec<String>, BTree
                 }
                 // from elsewhere the same datagram finds no session (and no group key)
                 muts.push(format!("a{}", AddrS::udp4(1, 5540).show()));
+                muts.extend(["F".to_string(), "T".into(), "X".into()]);
                 let _ = variant;
                 g.push_d(
                     "GS",
@@ -1717,6 +1719,7 @@ fn generate<C: Crypto>(crypto: &C, tier: &str, seed: u64) -> (Vec<String>, BTree
                 let h = mk_hdr(None, None, None, 7, 0, 900, 0x57, 0x05, 1, 2, None, None);
                 let pl = [1u8, 2, 3, 4];
                 let (e, w) = honest(crypto, 11, pn, &h, &pl);
+                let junk = payload_of(&mut g.rng, 30);
                 g.push_d(
                     "GS",
                     DCase {
@@ -1727,7 +1730,7 @@ fn generate<C: Crypto>(crypto: &C, tier: &str, seed: u64) -> (Vec<String>, BTree
                         oracle: (0, None),
                         prelude: vec![],
                         wire: w,
-                        muts: vec!["-".into(), forged_clear(&h, &pl, 16), forged_clear(&h, &pl, 0), forged_clear(&h, &payload_of(&mut g.rng, 30), 16)],
+                        muts: vec!["-".into(), forged_clear(&h, &pl, 16), forged_clear(&h, &pl, 0), forged_clear(&h, &junk, 16)],
                     },
                 );
             }
